@@ -44,7 +44,7 @@ fn closed_core(plan: Plan, universe: u8, tier: Tier, need_inplace: bool) -> Box<
 pub fn seeds_for(width: usize) -> Vec<Vec<MapOp>> {
     let (w, fill) = if width == 16 { (16u8, 28u8) } else { (8u8, 14u8) };
     let ins = |n: u8| (0..n).map(MapOp::Insert).collect::<Vec<_>>();
-    let mut v = vec![ins(w + 1), ins(fill)];
+    let mut v = vec![ins(w + 1), ins(fill), ins(fill / 2)];
     for removed in [1u8, w / 2, fill / 2, fill - 8, fill - 1] {
         let mut h = ins(fill);
         h.extend((0..removed).map(MapOp::Remove));
